@@ -147,6 +147,9 @@ struct flat_set {
         iterator it = lower_bound(key);
 
         if (it == end() or _compare(key, *it)) {
+            if (_container.size() == _container.max_size()) {
+                return etl::make_pair(end(), false);
+            }
             it = _container.emplace(it, etl::move(key));
             return etl::make_pair(it, true);
         }
